@@ -16,6 +16,31 @@
 //	            len, append(a, b...), append(a, x…), []T{{…}}, T{…}, + - *, comparisons,
 //	            ! && ||, integer conversions, sort.Search(n, func(i int) bool { return P })
 //
+// Units with an impConfig (the credential stores, wasp/auth) additionally have:
+//
+//	types       string (Lean String; == != < <= > >= through Go.eq/Go.ne/Go.strLt…, strings.Compare,
+//	            literals, package-level string/int constants rendered as generated defs),
+//	            []byte as the opaque Go.Bytes (only handed on: external calls, []byte(s)),
+//	            error (nil, or a package-level `var ErrX = errors.New("…")`; Go.Error),
+//	            structs with string fields, struct results, declarations looked up in the whole
+//	            package directory, fields listed in impConfig.dropFields left out of a struct
+//	parameters  read-only: scalars, structs (a struct whose declaration has fields outside the subset
+//	            is a VIEW: only the fields the code selects are rendered), slices and slices of slices
+//	            (never assigned, never copied into another variable). A parameter of any other type
+//	            is dropped when the body never mentions it.
+//	calls       an EXTERNAL function (impConfig.externs) becomes a parameter of every translated
+//	            definition that uses it (same name, type from its Go declaration; it is assumed to be
+//	            a function of its arguments); a nondet external (randomID) may only feed a dropped
+//	            field; any other package function whose body is a single `return e` is inlined
+//	statements  switch tag { case a, b: … } (as the if-chain on tag == a || tag == b),
+//	            for i := range path {…} (as i := 0; for ; i < len(path); i++ {…}, path not assigned
+//	            and i not assigned in the body), x := make([]T, 0) / x := []T{…} (a slice-typed local
+//	            is accepted when its initial value is freshly allocated),
+//	            sort.SliceStable(path, helper(path)) with  func helper(p []T) func(i, j int) bool
+//	            { return func(i, j int) bool { return E } },  return &T{f: v}, … (a fresh struct: its value)
+//	fragments   impSpec.frag: a plain function is translated from the statement that declares a given
+//	            variable to its end; the variables live at that point are declared inputs.
+//
 // The receiver is threaded as a VALUE: a method  func (m *T) F(a A) R  becomes
 //
 //	def f (m : T) (a : A) : Option (T × R)        (Option T when there is no result)
@@ -38,8 +63,12 @@ import (
 	"go/ast"
 	"go/parser"
 	"go/token"
+	"os"
+	"path/filepath"
 	"sort"
+	"strconv"
 	"strings"
+	"unicode/utf8"
 )
 
 type impField struct{ name, typ string }
@@ -48,38 +77,93 @@ type impStruct struct {
 	name    string
 	fields  []impField
 	mutexes map[string]bool
+	rel     string   // file of the declaration
+	view    bool     // read-only view: fields are added when the code selects them
+	dropped []string // fields left out (impConfig.dropFields)
 }
+
+// impExtern names a package function that is not translated but becomes a parameter.
+// nondet: its result is not a function of its arguments (randomID); it may only feed a dropped field.
+type impExtern struct {
+	name   string
+	nondet bool
+}
+
+// impFrag: translate a plain function from the statement `first := …` (a top-level statement of its
+// body) to its end (first == "": the whole function, its parameters being the inputs). inputs are the variables live at that point with their Go types (declared here:
+// the extractor does not type-check; it verifies that each is declared by a := in the skipped prefix);
+// results are the Go types of the results as the fragment produces them (the declared result types
+// of the function may be interfaces).
+type impFrag struct {
+	inputs  []impField
+	first   string
+	results []string
+}
+
+// impConfig: a translation unit that spans a package directory.
+type impConfig struct {
+	rel        string // the file named in messages and in the header; declarations are looked up in its whole directory
+	namespace  string
+	ext        bool
+	externs    []impExtern
+	dropFields []string // "Type.Field"
+}
+
+type impConst struct{ name, typ, val, rel, doc string }
 
 // impSpec names one method to translate; fuel is the Go expression (evaluated where a for loop is
 // entered) bounding the number of turns of the loops of the method ("" = the method has no loop).
-type impSpec struct{ recvType, goName, leanName, fuel string }
+type impSpec struct {
+	recvType, goName, leanName, fuel string
+	file                             string // "" = the unit's file
+	frag                             *impFrag
+}
 
 type impUnit struct {
-	rel     string
-	p       *parsed
-	structs map[string]*impStruct
-	emitted []string // struct names in emission order
-	timeInt bool     // render time.Time as Int (milliseconds) and its Before/Equal/After as < = >
+	rel        string
+	p          *parsed
+	structs    map[string]*impStruct
+	emitted    []string   // struct names in emission order
+	timeInt    bool       // render time.Time as Int (milliseconds) and its Before/Equal/After as < = >
+	cfg        *impConfig // nil for the single-file units (idpool, bucket)
+	pkg        []string   // files of the package directory (cfg != nil), the unit's file first
+	externs    map[string]impExtern
+	dropped    map[string]bool
+	consts     map[string]*impConst
+	constOrder []string
 }
 
 type impFn struct {
-	u         *impUnit
-	where     string
-	recv      string
-	recvType  string
-	locals    map[string]string
-	declOrder []string
-	results   []string
-	inJoin    bool
-	leanName  string
-	fuel      string            // Go expression bounding loop turns
-	loops     int               // loops translated so far
-	aux       []string          // auxiliary definitions (loop bodies), emitted before the function
-	retWrap   string            // "" or the Go.Ctl constructor wrapping a return inside a loop body
-	elemSubst map[string]string // inside a sort.SliceStable closure: "path[i]" -> element variable
-	elemType  string
-	resultT   string // Lean type of the function's result (without Option)
+	u             *impUnit
+	where         string
+	recv          string
+	recvType      string
+	locals        map[string]string
+	declOrder     []string
+	results       []string
+	inJoin        bool
+	leanName      string
+	fuel          string            // Go expression bounding loop turns
+	loops         int               // loops translated so far
+	aux           []string          // auxiliary definitions (loop bodies), emitted before the function
+	retWrap       string            // "" or the Go.Ctl constructor wrapping a return inside a loop body
+	elemSubst     map[string]string // inside a sort.SliceStable closure: "path[i]" -> element variable
+	elemType      string
+	resultT       string  // Lean type of the function's result (without Option)
+	p             *parsed // the file the function is in
+	rel           string
+	readonly      map[string]bool // parameters / inputs: never assigned
+	subst         map[string]ev   // while a helper function is inlined: parameter -> argument
+	usedExt       map[string]bool // external functions called (they become parameters)
+	inReturn      bool            // translating the results of a return statement
+	fragment      bool
+	inlining      int
+	dropAfterLoop string // range loops: the index variable goes out of scope after the loop
 }
+
+// placeholders for the external-function parameters / arguments of a definition; replaced once the
+// whole function is translated (only then is the set of externals it uses known)
+const extParams, extArgs = "\x00EXTP\x00", "\x00EXTA\x00"
 
 // ev is a translated expression: guards (conjuncts, Lean Bool terms), value, Go type.
 type ev struct {
@@ -91,9 +175,9 @@ type ev struct {
 func (f *impFn) bad(n ast.Node, what string) {
 	line := 0
 	if n != nil {
-		line = f.u.p.fset.Position(n.Pos()).Line
+		line = f.p.fset.Position(n.Pos()).Line
 	}
-	failf("%s:%d (%s): outside the imperative subset: %s", f.u.rel, line, f.where, what)
+	failf("%s:%d (%s): outside the imperative subset: %s", f.rel, line, f.where, what)
 }
 
 func conj(gs ...[]string) []string {
@@ -122,8 +206,12 @@ func guardTerm(g []string) string {
 var goIntTypes = map[string]bool{"int": true, "int8": true, "int16": true, "int32": true, "int64": true,
 	"uint": true, "uint8": true, "uint16": true, "uint32": true, "uint64": true, "byte": true}
 
-// goType gives the canonical type string: "int", "bool", "[]T", a struct name, "mutex".
-func (u *impUnit) goType(e ast.Expr) (string, bool) {
+// goType gives the canonical type string: "int", "bool", "string", "bytes", "error", "any", "[]T",
+// a struct name, "mutex".
+func (u *impUnit) goType(e ast.Expr) (string, bool) { return u.goTypeN(e, false) }
+
+// goTypeN: with nested, slices of slices are accepted (read-only parameters only).
+func (u *impUnit) goTypeN(e ast.Expr, nested bool) (string, bool) {
 	switch x := e.(type) {
 	case *ast.Ident:
 		if goIntTypes[x.Name] {
@@ -132,12 +220,18 @@ func (u *impUnit) goType(e ast.Expr) (string, bool) {
 		if x.Name == "bool" {
 			return "bool", true
 		}
-		if u.structDecl(x.Name) != nil {
+		if u.cfg != nil && (x.Name == "string" || x.Name == "error") {
+			return x.Name, true
+		}
+		if st, _ := u.structDecl(x.Name); st != nil {
 			return x.Name, true
 		}
 	case *ast.ArrayType:
 		if x.Len == nil {
-			if et, ok := u.goType(x.Elt); ok && et != "mutex" && !strings.HasPrefix(et, "[]") {
+			if u.cfg != nil && exprString(x.Elt) == "byte" {
+				return "bytes", true
+			}
+			if et, ok := u.goTypeN(x.Elt, nested); ok && et != "mutex" && et != "bytes" && et != "error" && (nested || !strings.HasPrefix(et, "[]")) {
 				return "[]" + et, true
 			}
 		}
@@ -158,22 +252,186 @@ func (u *impUnit) goType(e ast.Expr) (string, bool) {
 	return "", false
 }
 
-func (u *impUnit) structDecl(name string) *ast.StructType {
-	for _, d := range u.p.file.Decls {
+func isScalar(t string) bool { return t == "int" || t == "bool" || t == "any" || t == "string" }
+
+// files lists the files declarations are looked up in: the unit's file, or (impConfig) every
+// non-test .go file of its directory, the unit's file first.
+func (u *impUnit) files() []string {
+	if u.cfg == nil {
+		return []string{u.rel}
+	}
+	if u.pkg == nil {
+		u.pkg = []string{u.rel}
+		dir := filepath.Dir(u.rel)
+		ents, err := os.ReadDir(filepath.Join(*repo, dir))
+		if err != nil {
+			failf("%s: cannot list the package directory: %v", u.rel, err)
+			return u.pkg
+		}
+		for _, e := range ents {
+			n := e.Name()
+			if e.IsDir() || !strings.HasSuffix(n, ".go") || strings.HasSuffix(n, "_test.go") || filepath.Join(dir, n) == u.rel {
+				continue
+			}
+			u.pkg = append(u.pkg, filepath.Join(dir, n))
+		}
+	}
+	return u.pkg
+}
+
+// eachDecl visits the top-level declarations of the unit's files until visit answers true.
+func (u *impUnit) eachDecl(visit func(rel string, d ast.Decl) bool) {
+	for _, rel := range u.files() {
+		p := parse(rel)
+		if p == nil {
+			continue
+		}
+		for _, d := range p.file.Decls {
+			if visit(rel, d) {
+				return
+			}
+		}
+	}
+}
+
+func (u *impUnit) structDecl(name string) (st *ast.StructType, where string) {
+	u.eachDecl(func(rel string, d ast.Decl) bool {
 		gd, ok := d.(*ast.GenDecl)
 		if !ok || gd.Tok != token.TYPE {
-			continue
+			return false
 		}
 		for _, s := range gd.Specs {
 			ts := s.(*ast.TypeSpec)
 			if ts.Name.Name == name {
-				if st, ok := ts.Type.(*ast.StructType); ok {
-					return st
+				if t, ok := ts.Type.(*ast.StructType); ok {
+					st, where = t, rel
+					return true
 				}
 			}
 		}
+		return false
+	})
+	return
+}
+
+// funcDecl finds a plain (receiver-less) function of the package.
+func (u *impUnit) funcDecl(name string) (fd *ast.FuncDecl, where string) {
+	u.eachDecl(func(rel string, d ast.Decl) bool {
+		if x, ok := d.(*ast.FuncDecl); ok && x.Recv == nil && x.Name.Name == name {
+			fd, where = x, rel
+			return true
+		}
+		return false
+	})
+	return
+}
+
+// leanString renders a Go string value as a Lean string literal.
+func leanString(v string) (string, bool) {
+	if !utf8.ValidString(v) {
+		return "", false
 	}
-	return nil
+	var b strings.Builder
+	b.WriteByte('"')
+	for _, r := range v {
+		switch {
+		case r == '"' || r == '\\':
+			b.WriteByte('\\')
+			b.WriteRune(r)
+		case r == '\n':
+			b.WriteString("\\n")
+		case r == '\t':
+			b.WriteString("\\t")
+		case r == '\r':
+			b.WriteString("\\r")
+		case r < 0x20 || r >= 0x7f:
+			fmt.Fprintf(&b, "\\u{%x}", r)
+		default:
+			b.WriteRune(r)
+		}
+	}
+	b.WriteByte('"')
+	return b.String(), true
+}
+
+// constant resolves a package-level  const X = <string or int literal>  or
+// var X = errors.New("…")  (an error identified by its name); each one used becomes a generated def.
+func (u *impUnit) constant(name string) *impConst {
+	if u.cfg == nil {
+		return nil
+	}
+	if c, ok := u.consts[name]; ok {
+		return c
+	}
+	var found *impConst
+	u.eachDecl(func(rel string, d ast.Decl) bool {
+		gd, ok := d.(*ast.GenDecl)
+		if !ok || (gd.Tok != token.CONST && gd.Tok != token.VAR) {
+			return false
+		}
+		for _, s := range gd.Specs {
+			vs := s.(*ast.ValueSpec)
+			for i, n := range vs.Names {
+				if n.Name != name || len(vs.Values) != len(vs.Names) {
+					continue
+				}
+				val := vs.Values[i]
+				if gd.Tok == token.CONST {
+					if bl, ok := val.(*ast.BasicLit); ok && bl.Kind == token.STRING && (vs.Type == nil || exprString(vs.Type) == "string") {
+						if sv, err := strconv.Unquote(bl.Value); err == nil {
+							if ls, ok := leanString(sv); ok {
+								found = &impConst{name, "string", ls, rel, "const " + name + " = " + bl.Value}
+							}
+						}
+					} else if ok && bl.Kind == token.INT && (vs.Type == nil || goIntTypes[exprString(vs.Type)]) {
+						found = &impConst{name, "int", "(" + bl.Value + " : Int)", rel, "const " + name + " = " + bl.Value}
+					}
+				} else if c, ok := val.(*ast.CallExpr); ok && exprString(c.Fun) == "errors.New" && len(c.Args) == 1 && vs.Type == nil {
+					if bl, ok := c.Args[0].(*ast.BasicLit); ok && bl.Kind == token.STRING {
+						ls, _ := leanString(name)
+						found = &impConst{name, "error", "Go.Error.sentinel " + ls, rel, "var " + name + " = errors.New(" + bl.Value + ")"}
+					}
+				}
+				return true
+			}
+		}
+		return false
+	})
+	if found != nil {
+		u.consts[name] = found
+		u.constOrder = append(u.constOrder, name)
+	}
+	return found
+}
+
+// fieldsInSubset: could the struct be rendered whole (as an element / result struct)?
+func (u *impUnit) fieldsInSubset(st *ast.StructType) bool {
+	for _, fl := range st.Fields.List {
+		ft, ok := u.goType(fl.Type)
+		if !ok || len(fl.Names) == 0 || !(isScalar(ft) || ft == "mutex") {
+			return false
+		}
+	}
+	return true
+}
+
+// useView registers a struct as a read-only view (a parameter type): fields are rendered when selected.
+func (u *impUnit) useView(name string) *impStruct {
+	if s, ok := u.structs[name]; ok {
+		return s
+	}
+	st, rel := u.structDecl(name)
+	if st == nil {
+		failf("%s: struct type %s not found", u.rel, name)
+		return nil
+	}
+	if u.fieldsInSubset(st) {
+		return u.useStruct(name, false)
+	}
+	s := &impStruct{name: name, mutexes: map[string]bool{}, rel: rel, view: true}
+	u.structs[name] = s
+	u.emitted = append(u.emitted, name)
+	return s
 }
 
 // useStruct registers a struct (fields first), refusing field types outside the subset.
@@ -181,34 +439,42 @@ func (u *impUnit) useStruct(name string, isRecv bool) *impStruct {
 	if s, ok := u.structs[name]; ok {
 		return s
 	}
-	st := u.structDecl(name)
+	st, rel := u.structDecl(name)
 	if st == nil {
 		failf("%s: struct type %s not found", u.rel, name)
 		return nil
 	}
-	s := &impStruct{name: name, mutexes: map[string]bool{}}
+	s := &impStruct{name: name, mutexes: map[string]bool{}, rel: rel}
 	u.structs[name] = s
 	for _, fl := range st.Fields.List {
 		ft, ok := u.goType(fl.Type)
-		if !ok {
-			failf("%s: type %s: outside the imperative subset: field type %s", u.rel, name, exprString(fl.Type))
-			continue
-		}
 		if len(fl.Names) == 0 {
-			failf("%s: type %s: outside the imperative subset: embedded field %s", u.rel, name, exprString(fl.Type))
+			failf("%s: type %s: outside the imperative subset: embedded field %s", rel, name, exprString(fl.Type))
 			continue
 		}
 		for _, n := range fl.Names {
+			if u.dropped[name+"."+n.Name] {
+				s.dropped = append(s.dropped, n.Name)
+				continue
+			}
+			if !ok {
+				failf("%s: type %s: outside the imperative subset: field type %s", rel, name, exprString(fl.Type))
+				continue
+			}
 			if ft == "mutex" {
 				s.mutexes[n.Name] = true
 				continue
 			}
-			if !isRecv && ft != "int" && ft != "bool" && ft != "any" {
-				failf("%s: type %s: outside the imperative subset: field %s of type %s in an element struct (copying it would alias)", u.rel, name, n.Name, ft)
+			if ft == "bytes" || ft == "error" {
+				failf("%s: type %s: outside the imperative subset: field %s of type %s", rel, name, n.Name, ft)
+				continue
+			}
+			if !isRecv && !isScalar(ft) {
+				failf("%s: type %s: outside the imperative subset: field %s of type %s in an element struct (copying it would alias)", rel, name, n.Name, ft)
 				continue
 			}
 			el := strings.TrimPrefix(ft, "[]")
-			if el != "int" && el != "bool" && el != "any" {
+			if !isScalar(el) {
 				u.useStruct(el, false)
 			}
 			s.fields = append(s.fields, impField{n.Name, ft})
@@ -226,6 +492,14 @@ func leanType(t string) string {
 		return "Bool"
 	case t == "any":
 		return "Go.Any"
+	case t == "string":
+		return "String"
+	case t == "bytes":
+		return "Go.Bytes"
+	case t == "error":
+		return "Go.Error"
+	case strings.HasPrefix(t, "[][]"):
+		return "List (" + leanType(t[2:]) + ")"
 	case strings.HasPrefix(t, "[]"):
 		return "List " + leanType(t[2:])
 	}
@@ -242,7 +516,39 @@ func (u *impUnit) field(structName, f string) (string, bool) {
 			return fl.typ, true
 		}
 	}
+	if s.view {
+		// a view grows by the fields the code reads (scalars and opaque byte slices only)
+		if st, _ := u.structDecl(structName); st != nil {
+			for _, fl := range st.Fields.List {
+				for _, n := range fl.Names {
+					if n.Name == f {
+						if ft, ok := u.goType(fl.Type); ok && (isScalar(ft) || ft == "bytes") {
+							s.fields = append(s.fields, impField{f, ft})
+							return ft, true
+						}
+					}
+				}
+			}
+		}
+	}
 	return "", false
+}
+
+// declIndex orders the fields of a view as they are declared.
+func (u *impUnit) sortView(s *impStruct) {
+	st, _ := u.structDecl(s.name)
+	if st == nil {
+		return
+	}
+	pos := map[string]int{}
+	k := 0
+	for _, fl := range st.Fields.List {
+		for _, n := range fl.Names {
+			pos[n.Name] = k
+			k++
+		}
+	}
+	sort.SliceStable(s.fields, func(i, j int) bool { return pos[s.fields[i].name] < pos[s.fields[j].name] })
 }
 
 // ---------------------------------------------------------------- expressions
@@ -266,18 +572,41 @@ func (f *impFn) expr(e ast.Expr) ev {
 		if x.Name == f.recv {
 			return ev{nil, leanIdent(x.Name), f.recvType}
 		}
+		if a, ok := f.subst[x.Name]; ok {
+			return a
+		}
 		if t, ok := f.locals[x.Name]; ok {
 			return ev{nil, leanIdent(x.Name), t}
+		}
+		if x.Name == "nil" && f.u.cfg != nil {
+			return ev{nil, "Go.Error.nil", "nil"} // typed by its context (an error result)
+		}
+		if c := f.u.constant(x.Name); c != nil {
+			return ev{nil, leanIdent(c.name), c.typ}
 		}
 		return f.errEv(e, "identifier "+x.Name+" (not a local, parameter or the receiver)")
 	case *ast.BasicLit:
 		if x.Kind == token.INT {
 			return ev{nil, "(" + x.Value + " : Int)", "int"}
 		}
+		if x.Kind == token.STRING && f.u.cfg != nil {
+			if sv, err := strconv.Unquote(x.Value); err == nil {
+				if ls, ok := leanString(sv); ok {
+					return ev{nil, ls, "string"}
+				}
+			}
+		}
 		return f.errEv(e, "literal "+x.Value)
 	case *ast.ParenExpr:
 		return f.expr(x.X)
 	case *ast.UnaryExpr:
+		if cl, ok := x.X.(*ast.CompositeLit); ok && x.Op == token.AND {
+			// &T{…}: the only reference to a fresh struct; in a return statement it is rendered as the value
+			if !f.inReturn || f.u.cfg == nil {
+				return f.errEv(e, "&T{…} outside a return statement")
+			}
+			return f.expr(cl)
+		}
 		a := f.expr(x.X)
 		switch {
 		case x.Op == token.NOT && a.t == "bool":
@@ -308,9 +637,12 @@ func (f *impFn) expr(e ast.Expr) ev {
 			return ev{g, "(" + l.v + " " + op + " " + r.v + ")", "bool"}
 		}
 		if op, ok := impCmp[x.Op]; ok {
-			okT := l.t == r.t && (l.t == "int" || ((l.t == "bool" || l.t == "any") && (x.Op == token.EQL || x.Op == token.NEQ)))
+			okT := l.t == r.t && (l.t == "int" || l.t == "string" || ((l.t == "bool" || l.t == "any") && (x.Op == token.EQL || x.Op == token.NEQ)))
 			if !okT {
 				return f.errEv(e, "comparison "+x.Op.String()+" on "+l.t+", "+r.t)
+			}
+			if l.t == "string" && x.Op != token.EQL && x.Op != token.NEQ {
+				op = map[token.Token]string{token.LSS: "Go.strLt", token.LEQ: "Go.strLe", token.GTR: "Go.strGt", token.GEQ: "Go.strGe"}[x.Op]
 			}
 			return ev{conj(l.g, r.g), "(" + op + " " + l.v + " " + r.v + ")", "bool"}
 		}
@@ -374,6 +706,12 @@ func (f *impFn) expr(e ast.Expr) ev {
 		if !ok {
 			return f.errEv(e, "composite literal of type "+exprString(x.Type))
 		}
+		if f.u.cfg != nil {
+			// a struct first met in a literal: an element struct, or (in a return statement) a container
+			if el := strings.TrimPrefix(t, "[]"); !isScalar(el) && f.u.structs[el] == nil {
+				f.u.useStruct(el, f.inReturn && el == t)
+			}
+		}
 		return f.composite(x, t)
 	case *ast.CallExpr:
 		return f.call(x)
@@ -404,7 +742,7 @@ func (f *impFn) composite(x *ast.CompositeLit, t string) ev {
 		return ev{g, "([" + strings.Join(vs, ", ") + "] : " + leanType(t) + ")", t}
 	}
 	s := f.u.structs[t]
-	if s == nil || t == f.recvType {
+	if s == nil || t == f.recvType || s.view {
 		return f.errEv(x, "composite literal of type "+t)
 	}
 	vals := map[string]string{}
@@ -414,15 +752,26 @@ func (f *impFn) composite(x *ast.CompositeLit, t string) ev {
 		var val ast.Expr
 		if kv, ok := e.(*ast.KeyValueExpr); ok {
 			name, val = exprString(kv.Key), kv.Value
-		} else if i < len(s.fields) && len(x.Elts) == len(s.fields) {
+		} else if i < len(s.fields) && len(x.Elts) == len(s.fields) && len(s.dropped) == 0 {
 			name, val = s.fields[i].name, e
 		} else {
 			return f.errEv(e, "positional struct literal with missing fields")
+		}
+		if f.u.dropped[t+"."+name] {
+			// the field is not rendered: its value must be a call of a nondet external without arguments
+			c, isCall := val.(*ast.CallExpr)
+			if !isCall || len(c.Args) != 0 || !f.u.externs[exprString(c.Fun)].nondet {
+				return f.errEv(e, "value of the dropped field "+name+" is not a call of a nondet external function")
+			}
+			continue
 		}
 		ft, ok := f.u.field(t, name)
 		a := f.expr(val)
 		if !ok || a.t != ft {
 			return f.errEv(e, "struct literal field "+name+" of type "+a.t)
+		}
+		if strings.HasPrefix(ft, "[]") && !f.inReturn {
+			return f.errEv(e, "struct literal with the slice-typed field "+name+" outside a return statement (it would alias its source)")
 		}
 		if _, dup := vals[name]; dup {
 			return f.errEv(e, "duplicate field "+name)
@@ -439,6 +788,8 @@ func (f *impFn) composite(x *ast.CompositeLit, t string) ev {
 				v = "(0 : Int)"
 			case "bool":
 				v = "false"
+			case "string":
+				v = "\"\""
 			default:
 				return f.errEv(x, "struct literal omitting field "+fl.name+" of type "+fl.typ)
 			}
@@ -525,6 +876,11 @@ func (f *impFn) call(x *ast.CallExpr) ev {
 		}
 		return ev{g, "(Go.search " + n.v + " " + lam + b.v + "))", "int"}
 	}
+	if f.u.cfg != nil {
+		if a, ok := f.callExt(x, fn); ok {
+			return a
+		}
+	}
 	if f.u.timeInt {
 		if sel, ok := x.Fun.(*ast.SelectorExpr); ok && len(x.Args) == 1 {
 			if op, ok := map[string]string{"Before": "Go.lt", "After": "Go.gt", "Equal": "Go.eq"}[sel.Sel.Name]; ok {
@@ -536,6 +892,116 @@ func (f *impFn) call(x *ast.CallExpr) ev {
 		}
 	}
 	return f.errEv(x, "call of "+fn)
+}
+
+// callExt: the calls of the impConfig units (strings, []byte(s), make, external and inlined functions).
+func (f *impFn) callExt(x *ast.CallExpr, fn string) (ev, bool) {
+	switch {
+	case fn == "[]byte" && len(x.Args) == 1:
+		a := f.expr(x.Args[0])
+		if a.t != "string" {
+			return f.errEv(x, "conversion []byte of "+a.t), true
+		}
+		return ev{a.g, "(Go.bytesOfString " + a.v + ")", "bytes"}, true
+	case fn == "strings.Compare" && len(x.Args) == 2:
+		a, b := f.expr(x.Args[0]), f.expr(x.Args[1])
+		if a.t != "string" || b.t != "string" {
+			return f.errEv(x, "strings.Compare on "+a.t+", "+b.t), true
+		}
+		return ev{conj(a.g, b.g), "(Go.strCompare " + a.v + " " + b.v + ")", "int"}, true
+	case fn == "make" && len(x.Args) == 2:
+		t, ok := f.u.goType(x.Args[0])
+		n, isLit := x.Args[1].(*ast.BasicLit)
+		if !ok || !strings.HasPrefix(t, "[]") || !isLit || n.Value != "0" {
+			return f.errEv(x, "make other than make([]T, 0)"), true
+		}
+		if el := t[2:]; !isScalar(el) && f.u.structs[el] == nil {
+			f.u.useStruct(el, false)
+		}
+		return ev{nil, "([] : " + leanType(t) + ")", t}, true
+	}
+	id, ok := x.Fun.(*ast.Ident)
+	if !ok || x.Ellipsis != token.NoPos {
+		return ev{}, false
+	}
+	if _, shadow := f.locals[id.Name]; shadow || id.Name == f.recv {
+		return ev{}, false
+	}
+	fd, rel := f.u.funcDecl(id.Name)
+	if fd == nil {
+		return ev{}, false
+	}
+	// parameter names and types, result type
+	names, types := []string{}, []string{}
+	for _, prm := range fd.Type.Params.List {
+		pt, ok := f.u.goTypeN(prm.Type, true)
+		if !ok || !(isScalar(pt) || pt == "bytes" || strings.HasPrefix(pt, "[]")) || len(prm.Names) == 0 {
+			return f.errEv(x, "call of "+fn+" (parameter of type "+exprString(prm.Type)+")"), true
+		}
+		for _, n := range prm.Names {
+			names, types = append(names, n.Name), append(types, pt)
+		}
+	}
+	if fd.Type.Results == nil || len(fd.Type.Results.List) != 1 || len(fd.Type.Results.List[0].Names) > 0 {
+		return f.errEv(x, "call of "+fn+" (not exactly one unnamed result)"), true
+	}
+	rt, ok := f.u.goType(fd.Type.Results.List[0].Type)
+	if !ok || !(isScalar(rt) || rt == "bytes") {
+		return f.errEv(x, "call of "+fn+" (result of type "+exprString(fd.Type.Results.List[0].Type)+")"), true
+	}
+	if len(x.Args) != len(names) {
+		return f.errEv(x, "call of "+fn+" with a different number of arguments"), true
+	}
+	args := []ev{}
+	g := []string{}
+	for i, arg := range x.Args {
+		a := f.expr(arg)
+		if a.t != types[i] {
+			return f.errEv(x, "call of "+fn+": argument of type "+a.t+" for "+types[i]), true
+		}
+		g = conj(g, a.g)
+		args = append(args, a)
+	}
+	if ext, isExt := f.u.externs[id.Name]; isExt {
+		if ext.nondet {
+			return f.errEv(x, "call of the nondet external function "+fn+" whose result is used"), true
+		}
+		// an external function: a parameter of the translated definition (assumed to be a function of its arguments)
+		f.usedExt[id.Name] = true
+		v := "(" + leanIdent(id.Name)
+		for _, a := range args {
+			v += " " + a.v
+		}
+		return ev{g, v + ")", rt}, true
+	}
+	// any other package function whose body is a single `return e`: inlined, its parameters
+	// standing for the (side-effect free) arguments
+	if fd.Body == nil || len(fd.Body.List) != 1 {
+		return f.errEv(x, "call of "+fn+" (neither declared external nor a single return statement)"), true
+	}
+	rs, isRet := fd.Body.List[0].(*ast.ReturnStmt)
+	if !isRet || len(rs.Results) != 1 {
+		return f.errEv(x, "call of "+fn+" (neither declared external nor a single return statement)"), true
+	}
+	if f.inlining > 8 {
+		return f.errEv(x, "call of "+fn+" (inlining too deep: recursion?)"), true
+	}
+	sub := map[string]ev{}
+	for i, n := range names {
+		sub[n] = ev{nil, args[i].v, types[i]} // the guards of the arguments are demanded once, here
+	}
+	saved := *f
+	f.locals, f.subst, f.recv, f.elemSubst = map[string]string{}, sub, "", nil
+	f.p, f.rel, f.where = parse(rel), rel, saved.where+" -> "+id.Name
+	f.inlining++
+	r := f.expr(rs.Results[0])
+	f.locals, f.subst, f.recv, f.elemSubst = saved.locals, saved.subst, saved.recv, saved.elemSubst
+	f.p, f.rel, f.where = saved.p, saved.rel, saved.where
+	f.inlining--
+	if r.t != rt && r.t != "?" {
+		return f.errEv(x, "call of "+fn+": its body yields "+r.t+" for "+rt), true
+	}
+	return ev{conj(g, r.g), r.v, rt}, true
 }
 
 // ---------------------------------------------------------------- aliasing
@@ -553,6 +1019,9 @@ func (f *impFn) sliceSources(e ast.Expr) []string {
 	case *ast.SliceExpr:
 		return f.sliceSources(x.X)
 	case *ast.CallExpr:
+		if exprString(x.Fun) == "make" {
+			return nil // freshly allocated
+		}
 		out := []string{}
 		for _, a := range x.Args {
 			if _, isLit := a.(*ast.FuncLit); !isLit {
@@ -560,7 +1029,12 @@ func (f *impFn) sliceSources(e ast.Expr) []string {
 			}
 		}
 		return out
-	case *ast.CompositeLit, *ast.IndexExpr, *ast.BasicLit:
+	case *ast.IndexExpr:
+		if strings.HasPrefix(f.lvalueType(e), "[]") {
+			return f.sliceSources(x.X) // an element that is itself a slice (slices of slices)
+		}
+		return nil
+	case *ast.CompositeLit, *ast.BasicLit:
 		return nil
 	}
 	if strings.HasPrefix(f.expr(e).t, "[]") {
@@ -577,8 +1051,12 @@ func (f *impFn) assign(lhs ast.Expr, newVal string) (g []string, root, val strin
 	case *ast.ParenExpr:
 		return f.assign(x.X, newVal)
 	case *ast.Ident:
-		if _, isLocal := f.locals[x.Name]; isLocal {
+		if _, isLocal := f.locals[x.Name]; isLocal && !f.readonly[x.Name] {
 			return nil, x.Name, newVal, true
+		}
+		if f.readonly[x.Name] {
+			f.bad(lhs, "assignment to (or through) the parameter "+x.Name+" (parameters of struct or slice type are read-only)")
+			return nil, "", "", false
 		}
 		f.bad(lhs, "assignment to "+x.Name)
 		return nil, "", "", false
@@ -708,6 +1186,10 @@ func (f *impFn) assignedOuter(bodies [][]ast.Stmt) []string {
 					}
 				case *ast.IncDecStmt:
 					set[root(x.X)] = true
+				case *ast.RangeStmt:
+					if x.Key != nil && x.Tok == token.DEFINE {
+						declared[root(x.Key)] = true
+					}
 				case *ast.ExprStmt:
 					// sort.SliceStable(path, …) sorts path in place
 					if c, ok := x.X.(*ast.CallExpr); ok && exprString(c.Fun) == "sort.SliceStable" && len(c.Args) > 0 {
@@ -719,7 +1201,7 @@ func (f *impFn) assignedOuter(bodies [][]ast.Stmt) []string {
 		}
 	}
 	out := []string{}
-	if set[f.recv] {
+	if f.recv != "" && set[f.recv] {
 		out = append(out, f.recv)
 	}
 	for _, n := range f.declOrder {
@@ -758,7 +1240,10 @@ func (f *impFn) scoped(body func() string) string {
 	return out
 }
 
-func (f *impFn) declare(n ast.Node, name, typ string) bool {
+func (f *impFn) declare(n ast.Node, name, typ string) bool { return f.declareF(n, name, typ, false) }
+
+// declareF: with fresh, a slice-typed variable is accepted (its initial value shares no backing array)
+func (f *impFn) declareF(n ast.Node, name, typ string, fresh bool) bool {
 	if name == "_" {
 		f.bad(n, "blank identifier")
 		return false
@@ -767,8 +1252,12 @@ func (f *impFn) declare(n ast.Node, name, typ string) bool {
 		f.bad(n, "redeclaration (shadowing) of "+name)
 		return false
 	}
-	if strings.HasPrefix(typ, "[]") {
+	if strings.HasPrefix(typ, "[]") && !(fresh && f.u.cfg != nil) {
 		f.bad(n, "local variable "+name+" of slice type (it would alias its source)")
+		return false
+	}
+	if typ == "nil" || typ == "?" {
+		f.bad(n, "local variable "+name+" of unknown type")
 		return false
 	}
 	f.locals[name] = typ
@@ -816,9 +1305,17 @@ func (f *impFn) block(stmts []ast.Stmt, tail, ind string) string {
 			break
 		}
 		g := []string{}
-		parts := []string{leanIdent(f.recv)}
+		parts := []string{}
+		if f.recv != "" {
+			parts = append(parts, leanIdent(f.recv))
+		}
 		for i, r := range s.Results {
+			f.inReturn = true
 			a := f.expr(r)
+			f.inReturn = false
+			if a.t == "nil" && f.results[i] == "error" {
+				a.t = "error"
+			}
 			if a.t != f.results[i] && a.t != "?" {
 				f.bad(r, "returning "+a.t+" for "+f.results[i])
 			}
@@ -860,7 +1357,7 @@ func (f *impFn) block(stmts []ast.Stmt, tail, ind string) string {
 		conds, bodies, els := flattenIf(s)
 		return f.chain(s, conds, bodies, els, rest, tail, ind)
 	case *ast.SwitchStmt:
-		if s.Init != nil || s.Tag != nil {
+		if s.Init != nil || (s.Tag != nil && f.u.cfg == nil) {
 			f.bad(s, "switch with an init statement or a tag")
 			break
 		}
@@ -883,6 +1380,22 @@ func (f *impFn) block(stmts []ast.Stmt, tail, ind string) string {
 				}
 				continue
 			}
+			if s.Tag != nil {
+				// switch tag { case a, b: … }  =  if tag == a || tag == b {…} else …  (tag and the case
+				// expressions have no side effects; their guards are demanded where Go evaluates them)
+				var c ast.Expr
+				for _, v := range cc.List {
+					eq := &ast.BinaryExpr{X: s.Tag, OpPos: v.Pos(), Op: token.EQL, Y: v}
+					if c == nil {
+						c = eq
+					} else {
+						c = &ast.BinaryExpr{X: c, OpPos: v.Pos(), Op: token.LOR, Y: eq}
+					}
+				}
+				conds = append(conds, c)
+				bodies = append(bodies, cc.Body)
+				continue
+			}
 			if len(cc.List) != 1 {
 				f.bad(cc, "case with several expressions")
 				okSw = false
@@ -900,6 +1413,11 @@ func (f *impFn) block(stmts []ast.Stmt, tail, ind string) string {
 			return f.forLoop(s, rest, tail, ind)
 		}
 		f.bad(s, "for statement")
+	case *ast.RangeStmt:
+		if f.u.cfg != nil {
+			return f.rangeLoop(s, rest, tail, ind)
+		}
+		f.bad(s, "range statement")
 	default:
 		f.bad(s, fmt.Sprintf("statement %T", s))
 	}
@@ -942,6 +1460,7 @@ func (f *impFn) assignStmt(s *ast.AssignStmt, rest []ast.Stmt, tail, ind string)
 		g := []string{}
 		lets := []string{}
 		names, types := []string{}, []string{}
+		fresh := []bool{}
 		for i := range s.Lhs {
 			id, ok := s.Lhs[i].(*ast.Ident)
 			if !ok {
@@ -952,9 +1471,10 @@ func (f *impFn) assignStmt(s *ast.AssignStmt, rest []ast.Stmt, tail, ind string)
 			g = conj(g, a.g)
 			lets = append(lets, "let "+leanIdent(id.Name)+" := "+a.v)
 			names, types = append(names, id.Name), append(types, a.t)
+			fresh = append(fresh, strings.HasPrefix(a.t, "[]") && !strings.HasPrefix(a.t, "[][]") && len(f.sliceSources(s.Rhs[i])) == 0)
 		}
 		for i := range names {
-			if !f.declare(s, names[i], types[i]) {
+			if !f.declareF(s, names[i], types[i], fresh[i]) {
 				return "", false
 			}
 		}
@@ -1015,7 +1535,7 @@ func (f *impFn) assignStmt(s *ast.AssignStmt, rest []ast.Stmt, tail, ind string)
 func (f *impFn) lvalueType(e ast.Expr) string {
 	n := len(failures)
 	t := f.expr(e).t
-	if len(failures) > n {
+	if len(failures) > n || t == "?" {
 		return ""
 	}
 	return t
@@ -1130,7 +1650,10 @@ func (f *impFn) forLoop(s *ast.ForStmt, rest []ast.Stmt, tail, ind string) strin
 	stateT := strings.Join(stT, " × ")
 	// everything else in scope is a parameter of the auxiliary definition
 	params, args := "", ""
-	if !inState[f.recv] {
+	if f.u.cfg != nil {
+		params, args = extParams, extArgs
+	}
+	if f.recv != "" && !inState[f.recv] {
 		params += " (" + leanIdent(f.recv) + " : " + leanType(f.recvType) + ")"
 		args += " " + leanIdent(f.recv)
 	}
@@ -1152,14 +1675,71 @@ func (f *impFn) forLoop(s *ast.ForStmt, rest []ast.Stmt, tail, ind string) strin
 		return ind + "if " + c.v + " then\n" + th + "\n" + ind + "else\n" + ind + "  some (Go.Ctl.done " + tupleOf(vars) + ")"
 	})
 	f.retWrap = ""
+	drop := f.dropAfterLoop
+	f.dropAfterLoop = ""
 	f.aux = append(f.aux, fmt.Sprintf("/-- one turn (condition, body, post statement) of for loop %d of %s -/\ndef %s%s :\n    %s → Option (Go.Ctl (%s) (%s))\n  | %s =>\n%s\n\n",
 		f.loops, f.where, name, params, stateT, stateT, f.resultT, tupleOf(vars), turn))
 	return guarded(fuel.g, ind, func(ind string) string {
-		return ind + "match Go.loop (" + fuel.v + ".toNat + 1) " + tupleOf(vars) + " (" + name + args + ") with\n" +
-			ind + "| some (Go.Ctl.done " + tupleOf(vars) + ") =>\n" + f.block(rest, tail, ind+"  ") + "\n" +
+		head := ind + "match Go.loop (" + fuel.v + ".toNat + 1) " + tupleOf(vars) + " (" + name + args + ") with\n" +
+			ind + "| some (Go.Ctl.done " + tupleOf(vars) + ") =>\n"
+		if drop != "" { // the index variable of a range loop is not in scope after the loop
+			delete(f.locals, drop)
+			for i, n := range f.declOrder {
+				if n == drop {
+					f.declOrder = append(append([]string{}, f.declOrder[:i]...), f.declOrder[i+1:]...)
+					break
+				}
+			}
+		}
+		return head + f.block(rest, tail, ind+"  ") + "\n" +
 			ind + "| some (Go.Ctl.ret r) => some r\n" +
 			ind + "| _ => none"
 	})
+}
+
+// rangeLoop renders  for i := range path { body }  as  i := 0; for ; i < len(path); i++ { body }.
+// Go evaluates path once and sets i from a hidden counter on every turn; the two readings agree
+// because neither path nor i is assigned in the body (checked).
+func (f *impFn) rangeLoop(s *ast.RangeStmt, rest []ast.Stmt, tail, ind string) string {
+	key, ok := s.Key.(*ast.Ident)
+	if !ok || s.Value != nil || s.Tok != token.DEFINE || key.Name == "_" {
+		f.bad(s, "range statement other than  for i := range path")
+		return ind + "sorryStmt"
+	}
+	x := f.expr(s.X)
+	if !strings.HasPrefix(x.t, "[]") || len(x.g) > 0 {
+		f.bad(s, "range over "+exprString(s.X)+" of type "+x.t+" (or with an index expression in it)")
+		return ind + "sorryStmt"
+	}
+	root := s.X
+	for {
+		if sel, isSel := root.(*ast.SelectorExpr); isSel {
+			root = sel.X
+			continue
+		}
+		break
+	}
+	rootId, isId := root.(*ast.Ident)
+	if !isId {
+		f.bad(s, "range over "+exprString(s.X))
+		return ind + "sorryStmt"
+	}
+	if !f.declare(s, key.Name, "int") {
+		return ind + "sorryStmt"
+	}
+	for _, v := range f.assignedOuter([][]ast.Stmt{s.Body.List}) {
+		if v == rootId.Name || v == key.Name {
+			f.bad(s, "range loop whose body assigns "+v)
+			return ind + "sorryStmt"
+		}
+	}
+	lenCall := &ast.CallExpr{Fun: &ast.Ident{NamePos: s.Pos(), Name: "len"}, Args: []ast.Expr{s.X}}
+	loop := &ast.ForStmt{For: s.For,
+		Cond: &ast.BinaryExpr{X: &ast.Ident{NamePos: s.Pos(), Name: key.Name}, OpPos: s.Pos(), Op: token.LSS, Y: lenCall},
+		Post: &ast.IncDecStmt{X: &ast.Ident{NamePos: s.Pos(), Name: key.Name}, TokPos: s.Pos(), Tok: token.INC},
+		Body: s.Body}
+	f.dropAfterLoop = key.Name
+	return ind + "let " + leanIdent(key.Name) + " := (0 : Int)\n" + f.forLoop(loop, rest, tail, ind)
 }
 
 // sliceStable renders  sort.SliceStable(path, func(i, j int) bool { return E })  as
@@ -1172,7 +1752,29 @@ func (f *impFn) sliceStable(c *ast.CallExpr, rest []ast.Stmt, tail, ind string) 
 	if len(c.Args) != 2 {
 		return fail("call of sort.SliceStable")
 	}
+	path := exprString(c.Args[0])
+	inner := path // the name the closure uses for the slice
+	helperRel := ""
 	fl, ok := c.Args[1].(*ast.FuncLit)
+	if hc, isCall := c.Args[1].(*ast.CallExpr); !ok && isCall && f.u.cfg != nil {
+		// sort.SliceStable(path, helper(path))  with  func helper(p []T) func(i, j int) bool { return func(i, j int) bool {…} }
+		id, isId := hc.Fun.(*ast.Ident)
+		if !isId || len(hc.Args) != 1 || exprString(hc.Args[0]) != path {
+			return fail("sort.SliceStable whose second argument is neither a func literal nor helper(" + path + ")")
+		}
+		fd, rel := f.u.funcDecl(id.Name)
+		if fd == nil || fd.Body == nil || len(fd.Body.List) != 1 || len(fd.Type.Params.List) != 1 || len(fd.Type.Params.List[0].Names) != 1 {
+			return fail("sort.SliceStable with the helper " + id.Name + " (not a one-parameter function with a single return statement)")
+		}
+		rs, isRet := fd.Body.List[0].(*ast.ReturnStmt)
+		if !isRet || len(rs.Results) != 1 {
+			return fail("sort.SliceStable with the helper " + id.Name + " (not a single return statement)")
+		}
+		if fl, ok = rs.Results[0].(*ast.FuncLit); !ok {
+			return fail("sort.SliceStable with the helper " + id.Name + " (it does not return a func literal)")
+		}
+		inner, helperRel = fd.Type.Params.List[0].Names[0].Name, rel
+	}
 	if !ok {
 		return fail("sort.SliceStable whose second argument is not a func literal")
 	}
@@ -1204,11 +1806,21 @@ func (f *impFn) sliceStable(c *ast.CallExpr, rest []ast.Stmt, tail, ind string) 
 			return fail("closure parameter " + n + " shadows a variable")
 		}
 	}
-	path := exprString(c.Args[0])
 	ei, ej := "e_"+names[0], "e_"+names[1]
-	f.elemSubst = map[string]string{path + "[" + names[0] + "]": ei, path + "[" + names[1] + "]": ej}
+	f.elemSubst = map[string]string{inner + "[" + names[0] + "]": ei, inner + "[" + names[1] + "]": ej}
 	f.elemType = cur.t[2:]
-	less := f.expr(rs.Results[0])
+	var less ev
+	if helperRel != "" {
+		// the closure of the helper sees the helper's parameter only (as the elements), none of the caller's variables
+		saved := *f
+		f.locals, f.subst, f.recv = map[string]string{}, nil, ""
+		f.p, f.rel, f.where = parse(helperRel), helperRel, saved.where+" -> "+exprString(c.Args[1].(*ast.CallExpr).Fun)
+		less = f.expr(rs.Results[0])
+		f.locals, f.subst, f.recv = saved.locals, saved.subst, saved.recv
+		f.p, f.rel, f.where = saved.p, saved.rel, saved.where
+	} else {
+		less = f.expr(rs.Results[0])
+	}
 	f.elemSubst = nil
 	if less.t != "bool" || len(less.g) > 0 {
 		return fail("sort.SliceStable closure with an index or slice expression other than " + path + "[" + names[0] + "], " + path + "[" + names[1] + "]")
@@ -1226,48 +1838,242 @@ func (f *impFn) sliceStable(c *ast.CallExpr, rest []ast.Stmt, tail, ind string) 
 // ---------------------------------------------------------------- driver
 
 func translateImperative(rel, namespace string, timeInt bool, specs []impSpec) string {
+	return translateUnit(&impUnit{rel: rel, timeInt: timeInt}, namespace, specs)
+}
+
+// translateImperativeCfg: a unit over a package directory with external functions (see the file comment).
+func translateImperativeCfg(cfg impConfig, specs []impSpec) string {
+	u := &impUnit{rel: cfg.rel, timeInt: cfg.ext, cfg: &cfg, externs: map[string]impExtern{}, dropped: map[string]bool{},
+		consts: map[string]*impConst{}}
+	for _, e := range cfg.externs {
+		u.externs[e.name] = e
+	}
+	for _, d := range cfg.dropFields {
+		u.dropped[d] = true
+	}
+	return translateUnit(u, cfg.namespace, specs)
+}
+
+func mentions(body *ast.BlockStmt, name string) bool {
+	found := false
+	ast.Inspect(body, func(n ast.Node) bool {
+		if id, ok := n.(*ast.Ident); ok && id.Name == name {
+			found = true
+		}
+		return !found
+	})
+	return found
+}
+
+// externType: the Lean type of an external function, from its Go declaration.
+func (u *impUnit) externType(name string) string {
+	fd, _ := u.funcDecl(name)
+	if fd == nil {
+		failf("%s: external function %s not found", u.rel, name)
+		return "Unit"
+	}
+	parts := []string{}
+	for _, prm := range fd.Type.Params.List {
+		pt, _ := u.goTypeN(prm.Type, true)
+		for range prm.Names {
+			t := leanType(pt)
+			if strings.Contains(t, " ") {
+				t = "(" + t + ")"
+			}
+			parts = append(parts, t)
+		}
+	}
+	rt, _ := u.goType(fd.Type.Results.List[0].Type)
+	return strings.Join(append(parts, leanType(rt)), " → ")
+}
+
+func translateUnit(u *impUnit, namespace string, specs []impSpec) string {
+	rel := u.rel
 	p := parse(rel)
 	if p == nil {
 		return ""
 	}
-	u := &impUnit{rel: rel, p: p, structs: map[string]*impStruct{}, timeInt: timeInt}
+	u.p = p
+	u.structs = map[string]*impStruct{}
 	var defs strings.Builder
+	sources := []string{rel}
 	for _, sp := range specs {
-		fd := findFunc(rel, "*"+sp.recvType, sp.goName)
+		frel := rel
+		if sp.file != "" {
+			frel = sp.file
+		}
+		seen := false
+		for _, s := range sources {
+			seen = seen || s == frel
+		}
+		if !seen {
+			sources = append(sources, frel)
+		}
+		recvKey := ""
+		if sp.recvType != "" {
+			recvKey = "*" + sp.recvType
+		}
+		fd := findFunc(frel, recvKey, sp.goName)
 		if fd == nil || fd.Body == nil {
 			continue
 		}
-		if u.useStruct(sp.recvType, true) == nil {
+		if sp.recvType != "" && u.useStruct(sp.recvType, true) == nil {
 			continue
 		}
 		f := &impFn{u: u, where: "(*" + sp.recvType + ")." + sp.goName, recvType: sp.recvType, locals: map[string]string{},
-			leanName: sp.leanName, fuel: sp.fuel}
-		if len(fd.Recv.List[0].Names) != 1 {
-			f.bad(fd, "unnamed receiver")
-			continue
-		}
-		f.recv = fd.Recv.List[0].Names[0].Name
-		sig := "(" + leanIdent(f.recv) + " : " + leanType(sp.recvType) + ")"
+			leanName: sp.leanName, fuel: sp.fuel, p: parse(frel), rel: frel, readonly: map[string]bool{}, usedExt: map[string]bool{}}
+		sig := ""
+		body := fd.Body.List
 		okSig := true
-		for _, prm := range fd.Type.Params.List {
-			pt, ok := u.goType(prm.Type)
-			if !ok || pt == "mutex" || strings.HasPrefix(pt, "[]") || (pt != "int" && pt != "bool" && pt != "any") {
-				f.bad(prm, "parameter of type "+exprString(prm.Type))
-				okSig = false
+		droppedParams := []string{}
+		if sp.recvType != "" {
+			if len(fd.Recv.List[0].Names) != 1 {
+				f.bad(fd, "unnamed receiver")
 				continue
 			}
-			for _, n := range prm.Names {
-				if !f.declare(prm, n.Name, pt) {
-					okSig = false
-				}
-				sig += " (" + leanIdent(n.Name) + " : " + leanType(pt) + ")"
+			f.recv = fd.Recv.List[0].Names[0].Name
+			sig = "(" + leanIdent(f.recv) + " : " + leanType(sp.recvType) + ")"
+		} else {
+			f.where = sp.goName
+			if sp.frag == nil || u.cfg == nil {
+				f.bad(fd, "plain function without a fragment specification")
+				continue
 			}
 		}
-		resT := []string{leanType(sp.recvType)}
-		if fd.Type.Results != nil {
+		// input: declares a read-only parameter / live-in variable
+		input := func(n ast.Node, name, pt string) {
+			if strings.HasPrefix(pt, "[]") || u.structs[pt] != nil {
+				if _, dup := f.locals[name]; dup || name == f.recv || name == "_" {
+					f.bad(n, "redeclaration (shadowing) of "+name)
+					okSig = false
+					return
+				}
+				f.locals[name] = pt
+				f.declOrder = append(f.declOrder, name)
+				f.readonly[name] = true
+			} else if !f.declare(n, name, pt) {
+				okSig = false
+				return
+			}
+			if sig != "" {
+				sig += " "
+			}
+			sig += "(" + leanIdent(name) + " : " + leanType(pt) + ")"
+		}
+		if sp.frag == nil || sp.frag.first == "" {
+			for _, prm := range fd.Type.Params.List {
+				pt, ok := u.goTypeN(prm.Type, u.cfg != nil)
+				inSubset := ok && (pt == "int" || pt == "bool" || pt == "any")
+				if u.cfg != nil && ok && pt != "mutex" && pt != "error" {
+					inSubset = true
+					if st, _ := u.structDecl(pt); st != nil {
+						// a struct parameter is read-only; a struct that cannot be rendered whole is a view
+						used := false
+						for _, n := range prm.Names {
+							used = used || (n.Name != "_" && mentions(fd.Body, n.Name))
+						}
+						if !used {
+							inSubset = false
+						} else if u.useView(pt) == nil {
+							okSig = false
+							continue
+						}
+					}
+				}
+				for _, n := range prm.Names {
+					if !inSubset {
+						if u.cfg != nil && (n.Name == "_" || !mentions(fd.Body, n.Name)) {
+							droppedParams = append(droppedParams, n.Name+" "+exprString(prm.Type))
+							continue // never mentioned: the result cannot depend on it
+						}
+						f.bad(prm, "parameter of type "+exprString(prm.Type))
+						okSig = false
+						continue
+					}
+					input(prm, n.Name, pt)
+				}
+			}
+		} else {
+			// a fragment: skip the statements before `first := …`, whose live variables are the declared inputs
+			start := -1
+			for i, st := range body {
+				if as, ok := st.(*ast.AssignStmt); ok && as.Tok == token.DEFINE {
+					for _, l := range as.Lhs {
+						if id, ok := l.(*ast.Ident); ok && id.Name == sp.frag.first {
+							start = i
+						}
+					}
+				}
+				if start >= 0 {
+					break
+				}
+			}
+			if start < 0 {
+				f.bad(fd, "fragment: no top-level statement "+sp.frag.first+" := …")
+				continue
+			}
+			for _, in := range sp.frag.inputs {
+				te, err := parser.ParseExpr(in.typ)
+				pt, ok := "", false
+				if err == nil {
+					pt, ok = u.goTypeN(te, true)
+				}
+				if !ok || !(isScalar(pt) || pt == "bytes" || strings.HasPrefix(pt, "[]")) {
+					f.bad(fd, "fragment input "+in.name+" of type "+in.typ)
+					okSig = false
+					continue
+				}
+				declaredBefore := false
+				for _, st := range body[:start] {
+					if as, ok := st.(*ast.AssignStmt); ok && as.Tok == token.DEFINE {
+						for _, l := range as.Lhs {
+							if id, ok := l.(*ast.Ident); ok && id.Name == in.name {
+								declaredBefore = true
+							}
+						}
+					}
+				}
+				if !declaredBefore {
+					f.bad(fd, "fragment input "+in.name+" is not declared by a := before "+sp.frag.first+" := …")
+					okSig = false
+					continue
+				}
+				input(fd, in.name, pt)
+			}
+			body = body[start:]
+			f.fragment = true
+		}
+		resT := []string{}
+		if f.recv != "" {
+			resT = append(resT, leanType(sp.recvType))
+		}
+		if sp.frag != nil {
+			for _, r := range sp.frag.results {
+				if r != "error" && !isScalar(r) {
+					if u.useStruct(r, true) == nil {
+						okSig = false
+						continue
+					}
+				}
+				f.results = append(f.results, r)
+				resT = append(resT, leanType(r))
+			}
+			if fd.Type.Results == nil || fd.Type.Results.NumFields() != len(sp.frag.results) {
+				f.bad(fd, "fragment: the function does not have the declared number of results")
+				okSig = false
+			}
+		} else if fd.Type.Results != nil {
 			for _, r := range fd.Type.Results.List {
 				rt, ok := u.goType(r.Type)
-				if !ok || (rt != "int" && rt != "bool" && rt != "any") || len(r.Names) > 0 {
+				okT := ok && (rt == "int" || rt == "bool" || rt == "any")
+				if u.cfg != nil && ok && !okT {
+					if rt == "string" || rt == "error" {
+						okT = true
+					} else if st, _ := u.structDecl(rt); st != nil && rt != sp.recvType {
+						okT = u.useStruct(rt, false) != nil // a struct of scalars, returned by value
+					}
+				}
+				if !okT || len(r.Names) > 0 {
 					f.bad(r, "result of type "+exprString(r.Type)+" (or named result)")
 					okSig = false
 					continue
@@ -1288,19 +2094,56 @@ func translateImperative(rel, namespace string, timeInt bool, specs []impSpec) s
 			ret = "(" + ret + ")"
 		}
 		f.resultT = strings.Join(resT, " × ")
-		body := f.block(fd.Body.List, tail, "  ")
-		for _, a := range f.aux {
-			defs.WriteString(a)
+		text := f.block(body, tail, "  ")
+		// the external functions used become leading parameters (of the loop definitions too)
+		eP, eA := "", ""
+		if u.cfg != nil {
+			for _, e := range u.cfg.externs {
+				if f.usedExt[e.name] {
+					eP += " (" + leanIdent(e.name) + " : " + u.externType(e.name) + ")"
+					eA += " " + leanIdent(e.name)
+				}
+			}
 		}
-		fmt.Fprintf(&defs, "/-- translated from %s func (*%s).%s -/\ndef %s %s : Option %s :=\n%s\n\n",
-			rel, sp.recvType, sp.goName, sp.leanName, sig, ret, body)
+		fix := func(t string) string {
+			return strings.ReplaceAll(strings.ReplaceAll(t, extParams, eP), extArgs, eA)
+		}
+		for _, a := range f.aux {
+			defs.WriteString(fix(a))
+		}
+		doc := fmt.Sprintf("translated from %s func (*%s).%s", frel, sp.recvType, sp.goName)
+		if sp.recvType == "" {
+			doc = fmt.Sprintf("translated from %s func %s", frel, sp.goName)
+			if sp.frag.first != "" {
+				doc += fmt.Sprintf(", from the statement `%s := …` to the end (inputs: the variables live there)", sp.frag.first)
+			}
+		}
+		if len(droppedParams) > 0 {
+			doc += " (parameters never mentioned, dropped: " + strings.Join(droppedParams, ", ") + ")"
+		}
+		head := sp.leanName
+		if eP != "" {
+			head += eP
+		}
+		if sig != "" {
+			head += " " + sig
+		}
+		fmt.Fprintf(&defs, "/-- %s -/\ndef %s : Option %s :=\n%s\n\n", doc, head, ret, fix(text))
 	}
 	var b strings.Builder
-	b.WriteString("-- GENERATED by /verif/extract (imperative.go) from " + rel + " on every check run. Do not edit.\n")
+	b.WriteString("-- GENERATED by /verif/extract (imperative.go) from " + strings.Join(sources, ", ") + " on every check run. Do not edit.\n")
 	b.WriteString("import Wasp.Model.GoPrelude\nset_option linter.unusedVariables false\nnamespace " + namespace + "\n\n")
+	for _, name := range u.constOrder {
+		c := u.consts[name]
+		fmt.Fprintf(&b, "/-- translated from %s %s -/\ndef %s : %s := %s\n\n", c.rel, c.doc, leanIdent(c.name), leanType(c.typ), c.val)
+	}
 	for _, name := range u.emitted {
 		s := u.structs[name]
-		fmt.Fprintf(&b, "/-- translated from %s type %s", rel, name)
+		srel := s.rel
+		if srel == "" {
+			srel = rel
+		}
+		fmt.Fprintf(&b, "/-- translated from %s type %s", srel, name)
 		if len(s.mutexes) > 0 {
 			ms := []string{}
 			for m := range s.mutexes {
@@ -1308,6 +2151,13 @@ func translateImperative(rel, namespace string, timeInt bool, specs []impSpec) s
 			}
 			sort.Strings(ms)
 			fmt.Fprintf(&b, " (mutex field dropped: %s)", strings.Join(ms, ", "))
+		}
+		if len(s.dropped) > 0 {
+			fmt.Fprintf(&b, " (field dropped: %s)", strings.Join(s.dropped, ", "))
+		}
+		if s.view {
+			u.sortView(s)
+			b.WriteString(" (read-only view: the fields the translated code selects)")
 		}
 		b.WriteString(" -/\n")
 		fmt.Fprintf(&b, "structure %s where\n", leanType(name))
